@@ -51,6 +51,10 @@ class JsonRPC:
         if cls is not None:
             kwargs.setdefault('default', cls().default)
 
+        # flask's json provider sorts mapping keys by default, which raises TypeError for a result (or error data)
+        # whose keys are of several types ({200: 7, 'total': 8}) although the document is perfectly encodable
+        kwargs.setdefault('sort_keys', False)
+
         return flask.json.dumps(obj, **kwargs)
 
     @property
